@@ -109,6 +109,24 @@ CLAIMED["C16"] = dict(
     note=TB + "the float read-back accuracy is checked per case (few hundred ulps budget incl. offset), not by a general theorem; no-std roundings are C17's",
     technique="Coq proof + extracted-model bit-exact correspondence + exact oracle")
 
+CLAIMED["C13"] = dict(
+    text="Coq theorems parametric in the storage type's Serialize/Deserialize and in the data format: a quantity serializes to its stored "
+         "value's serialization independently of dimension and base units, deserializes from exactly what the storage type accepts, and "
+         "round-trips whenever the storage type does; tie: JSON text and serde_json::Value serialization, both round trips, and a catalogue "
+         "of well- and ill-typed documents, for nine storage types x six dimensions x three base-unit sets, compared with the stored value's "
+         "own (de)serialization in the same process",
+    note=TB + "thin model (forwarding law): the content is the per-case comparison with the storage type as oracle; formats exercised: serde_json text and Value",
+    technique="Coq proof of the forwarding law + differential check against the storage type's serde")
+CLAIMED["C18"] = dict(
+    text="Coq theorems (any precision, any libm function f, any base-unit set incl. NaN coefficients): a dimensionless quantity's base factor is "
+         "1, so inverse-trig/exp/log/atan2 results are stored as exactly f's value and an angle's stored value is its magnitude in radians; "
+         "closed kernel-evaluated theorems on the regenerated tables for HALF_TURN/FULL_TURN/SPHERE in binary64 and binary32; tie: every angle "
+         "and ratio unit x 6+2 trig, 6 inverse, 8 exp/log functions and atan2 over 5 dimensions x f64/f32 x two base sets, result compared "
+         "bit for bit with the storage type's function of the stored magnitude (large arguments included), stored magnitude compared with the "
+         "conversion model, constants compared exactly",
+    note=TB + "libm is an oracle evaluated in the same process; agreement across units (90 deg vs pi/2 rad) is C03's conversion accuracy",
+    technique="Coq proof + closed evaluation on regenerated tables + differential check against libm oracle")
+
 NOT_YET = "check under construction in this build phase; will be claimed once bin/check implements it"
 
 
